@@ -49,6 +49,7 @@ __CPROVER_ensures(__verif_g.crc_seq == __verif_g.seq)
 __CPROVER_ensures(__verif_g.crc_ptr == data && __verif_g.crc_len == size)
 __CPROVER_ensures(__verif_g.crc_res == __CPROVER_return_value)
 __CPROVER_ensures(__verif_g.module_new_seq == __CPROVER_old(__verif_g.module_new_seq))
+__CPROVER_ensures(__verif_g.partial == __CPROVER_old(__verif_g.partial) && __verif_g.unconsumed == __CPROVER_old(__verif_g.unconsumed))
 __CPROVER_ensures(__verif_g.exited == __CPROVER_old(__verif_g.exited));
 
 NvmModule *nvm_module_new(void)
@@ -60,6 +61,7 @@ __CPROVER_ensures(__verif_g.crc_seq == __CPROVER_old(__verif_g.crc_seq) &&
                   __verif_g.crc_len == __CPROVER_old(__verif_g.crc_len) &&
                   __verif_g.crc_res == __CPROVER_old(__verif_g.crc_res) &&
                   __verif_g.exited == __CPROVER_old(__verif_g.exited))
+__CPROVER_ensures(__verif_g.partial == __CPROVER_old(__verif_g.partial) && __verif_g.unconsumed == __CPROVER_old(__verif_g.unconsumed))
 __CPROVER_ensures(__CPROVER_return_value == NULL ||
     (__CPROVER_is_fresh(__CPROVER_return_value, sizeof(NvmModule)) &&
      __CPROVER_return_value->import_count == 0 &&
